@@ -12,7 +12,7 @@ from ..report import Check
 from .binder import Binder, core
 from .common import calls_in, guards_of, local_assignments, need_locals, stmt_of
 
-DEFINITE = {"STAR_ARGS": False, "STAR_KWARGS": False, "ELLIPSIS": False, "POK_NAME": False, "POK_IDX": False, "DEF_PROVIDED": True}
+DEFINITE = {"STAR_ARGS": False, "STAR_KWARGS": False, "STAR_EXHAUSTED": False, "ELLIPSIS": False, "POK_NAME": False, "POK_IDX": False, "DEF_PROVIDED": True}
 
 POS = ("BIND:POS_INDEX", "INC_POS")
 KW = ("BIND:KW_NAME", "CONSUME_KW")
@@ -74,7 +74,8 @@ def r05_a(prog: Program, chk: Check, b: Binder) -> None:
             )
         # no consumed-flag may be set on the definite slice: it would switch off the leftover checks
         for val, seqs in tab.items():
-            flags = sorted({a for s in seqs for a in s if a.startswith("FLAG:")})
+            # (the *args-exhausted flag is not read by the leftover checks)
+            flags = sorted({a for s in seqs for a in s if a.startswith("FLAG:") and a != "FLAG:star_exhausted"})
             if flags:
                 chk.ob(
                     "R05.a",
@@ -108,7 +109,7 @@ def r05_a(prog: Program, chk: Check, b: Binder) -> None:
 def r05_b(prog: Program, chk: Check, b: Binder) -> None:
     chk.rule("R05.b", "tail obligations: leftover positionals without *args and leftover keywords without **kwargs are errors", floor=2)
     fn = b.fn
-    need_locals(fn, "star_args_consumed", "star_kwargs_consumed", "keywords_consumed")
+    need_locals(fn, "star_args_consumed", "keywords_consumed")
     body = fn.body
     idx = body.index(b.loop)
     tail = body[idx + 1 :]
@@ -125,7 +126,12 @@ def r05_b(prog: Program, chk: Check, b: Binder) -> None:
             )
             acts = [norm(s) for s in st.body]
             pos_ok = neg and cmp_ok and any("show_call_error" in a for a in acts) and isinstance(st.body[-1], ast.Return) and norm(st.body[-1]) == "return None"
-        if t == "not star_kwargs_consumed":
+        vk_flags = {
+            norm(x.targets[0])
+            for x in ast.walk(ast.Module(body=list(b.arms.get("VAR_KEYWORD", [])), type_ignores=[]))
+            if isinstance(x, ast.Assign) and isinstance(x.value, ast.Constant) and x.value.value is True
+        }
+        if isinstance(st.test, ast.UnaryOp) and isinstance(st.test.op, ast.Not) and norm(st.test.operand) in vk_flags:
             # extra = set(A.keywords) - keywords_consumed ; if extra: error ; return None
             extra_name = None
             for s in st.body:
@@ -273,6 +279,120 @@ def r05_e(prog: Program, chk: Check, b: Binder) -> None:
         chk.ob("R05.e", f"signature::ParameterKind::{k}={v}", vals.get(k) == v, prog.site("signature", ci.node), f"ParameterKind.{k} is {vals.get(k)}, inspect._ParameterKind.{k} is {v}")
 
 
+# --------------------------------------------------------------- R05.f / R05.g
+def _model_chunk(args):
+    """Worker: interpret the binder on every call shape of a chunk of signatures
+    and classify each verdict against the reference."""
+    sigs, max_pos, max_kw = args
+    from ..model import Program as _P
+    from . import binder_model as bm
+
+    model = bm.BinderModel(_P())
+    classes: Dict[Tuple[str, str], Dict[str, object]] = {}
+    n = 0
+
+    def note(key: Tuple[str, str], ok: bool, sig, shape, detail: str) -> None:
+        c = classes.setdefault(key, {"n": 0, "bad": 0, "witness": []})
+        c["n"] += 1  # type: ignore[operator]
+        if not ok:
+            c["bad"] += 1  # type: ignore[operator]
+            w = c["witness"]
+            item = (len(bm.fmt_sig(sig)) + len(bm.fmt_shape(shape)), bm.fmt_sig(sig), bm.fmt_shape(shape), detail)
+            w.append(item)  # type: ignore[union-attr]
+            w.sort()  # type: ignore[union-attr]
+            del w[6:]  # type: ignore[arg-type]
+
+    for sig in sigs:
+        for shape in bm.shapes(sig, max_pos, max_kw):
+            n += 1
+            verdict, errors = model.run(sig, shape)
+            npos, kws, sa, sk = shape
+            # error discipline on whole runs: rejected <=> exactly one error was shown
+            note(("discipline", "reject-iff-one-error"), (verdict == "reject") == (len(errors) == 1) and len(errors) <= 1, sig, shape, f"{verdict} with errors {errors}")
+            if not sa and not sk:
+                ref = bm.cpython_outcome(sig, npos, kws)
+                ok = (verdict == "accept") == (ref == "binds")
+                note(("definite", ref), ok, sig, shape, f"binder: {verdict}{' ' + repr(errors[0]) if errors else ''}; CPython: {ref}")
+            else:
+                any_ok, ne_ok, reasons = bm.expansions(sig, shape)
+                if verdict == "accept":
+                    why = "+".join(sorted(reasons)) or "-"
+                    note(("star-accept", "some-expansion-binds" if any_ok else "no-expansion-binds:" + why), any_ok, sig, shape, f"accepted, but every expansion of the star arguments fails ({why})")
+                else:
+                    msg = errors[0] if errors else "<no message>"
+                    note(("star-reject", msg), not ne_ok, sig, shape, f"rejected ({msg!r}), but an expansion taking at least one element from every star argument binds")
+    return n, classes
+
+
+def _run_model(prog: Program, max_params: int, max_pos: int, max_kw: int):
+    import multiprocessing as mp
+    import os as _os
+
+    from . import binder_model as bm
+
+    sigs = list(bm.signatures(max_params))
+    procs = 2 if _os.environ.get("VERIF_SELFTEST") else min(16, _os.cpu_count() or 1)
+    # interleave so that chunks are balanced
+    chunks = [(sigs[i::procs * 4], max_pos, max_kw) for i in range(procs * 4)]
+    chunks = [c for c in chunks if c[0]]
+    total = 0
+    merged: Dict[Tuple[str, str], Dict[str, object]] = {}
+    if procs == 1:
+        results = [_model_chunk(c) for c in chunks]
+    else:
+        with mp.get_context("fork").Pool(procs) as pool:
+            results = pool.map(_model_chunk, chunks)
+    for n, classes in results:
+        total += n
+        for k, c in classes.items():
+            m = merged.setdefault(k, {"n": 0, "bad": 0, "witness": []})
+            m["n"] += c["n"]  # type: ignore[operator]
+            m["bad"] += c["bad"]  # type: ignore[operator]
+            m["witness"] = sorted(list(m["witness"]) + list(c["witness"]))[:6]  # type: ignore[arg-type]
+    return len(sigs), total, merged
+
+
+def r05_fg(prog: Program, chk: Check) -> None:
+    thorough = chk.tier == "thorough"
+    import os as _os
+
+    if _os.environ.get("VERIF_SELFTEST"):
+        max_params, max_pos, max_kw = 3, 3, 3
+    elif thorough:
+        max_params, max_pos, max_kw = 6, 4, 4
+    else:
+        max_params, max_pos, max_kw = 4, 4, 4
+    chk.rule(
+        "R05.f",
+        "whole-call binding, definite arguments: the transition system extracted from bind_arguments (opaque-value interpretation of its AST) "
+        f"gives CPython's verdict for every def-legal signature of up to {max_params} parameters and every call shape with up to {max_pos} positionals and "
+        f"{max_kw} keywords (incl. an unknown name and positional-only names); a call is rejected iff exactly one error is shown",
+        floor=5,
+    )
+    chk.rule(
+        "R05.g",
+        "whole-call binding, *args / **kwargs of unknown length: accepted only if some expansion binds; rejected only if no expansion that takes "
+        "at least one element from every star argument binds (reference: closed form, cross-checked against enumeration in the self-test)",
+        floor=2,
+    )
+    nsig, total, merged = _run_model(prog, max_params, max_pos, max_kw)
+    chk.model_evaluations += total
+    chk.analysed["binder_model"] = {"signatures": nsig, "call_shapes_interpreted": total, "max_params": max_params, "max_positionals": max_pos, "max_keywords": max_kw}
+    site = prog.site("signature", prog.func("signature", "Signature.bind_arguments"))
+    for (grp, name), c in sorted(merged.items()):
+        rid = "R05.f" if grp in ("definite", "discipline") else "R05.g"
+        bad = int(c["bad"])  # type: ignore[arg-type]
+        wit = [{"signature": w[1], "call": w[2], "detail": w[3]} for w in c["witness"]]  # type: ignore[union-attr]
+        chk.ob(
+            rid,
+            f"signature::Signature.bind_arguments::model::{grp}::{name}",
+            bad == 0,
+            site,
+            f"{c['n']} call shapes in this class, {bad} disagree with the reference" + (f"; smallest: {wit[0]['signature']} called as {wit[0]['call']}: {wit[0]['detail']}" if wit else ""),
+            witness=wit,
+        )
+
+
 def run(prog: Program, chk: Check) -> None:
     b = Binder(prog)
     r05_a(prog, chk, b)
@@ -280,3 +400,43 @@ def run(prog: Program, chk: Check) -> None:
     r05_c(prog, chk, b)
     r05_d(prog, chk)
     r05_e(prog, chk, b)
+    r05_fg(prog, chk)
+
+
+def run_thorough(prog: Program, chk: Check) -> None:
+    """Validation of the *reference* (not of pyanalyze): the table-driven
+    cpython_outcome() is compared with the interpreter's own argument binding on
+    every signature of up to 4 parameters x every definite call shape, and the
+    closed-form exists-expansion reference with its enumerative definition."""
+    from . import binder_model as bm
+
+    n = bad = 0
+    first = None
+    for sig in bm.signatures(4):
+        src = bm.fmt_sig(sig).replace("=d", "=None") + ": return None"
+        ns: Dict[str, object] = {}
+        exec(src, ns)  # a def statement of the reference domain; nothing of /repo
+        f = ns["f"]
+        for npos, kws, sa, sk in bm.shapes(sig, 4, 4):
+            if sa or sk:
+                continue
+            n += 1
+            try:
+                f(*([0] * npos), **{k: 0 for k in kws})  # type: ignore[operator]
+                real = True
+            except TypeError:
+                real = False
+            if real != bm.cpython_binds(sig, npos, kws):
+                bad += 1
+                first = first or (bm.fmt_sig(sig), bm.fmt_shape((npos, kws, sa, sk)), real)
+    m = mism = 0
+    for sig in bm.signatures(3):
+        for sh in bm.shapes(sig, 3, 3):
+            if sh[2] or sh[3]:
+                m += 1
+                if bm.expansions(sig, sh)[:2] != bm.expansions_bruteforce(sig, sh)[:2]:
+                    mism += 1
+    chk.analysed["reference_validation"] = {"definite_shapes_vs_interpreter": n, "mismatches": bad, "star_shapes_closed_form_vs_enumeration": m, "closed_form_mismatches": mism}
+    print(f"[C05] reference validation: {n} definite call shapes against the interpreter's binder ({bad} mismatches), {m} star shapes closed form vs enumeration ({mism} mismatches)")
+    if bad or mism:
+        chk.error(f"the reference binder of sa/rules/binder_model.py is wrong: {bad} mismatches with CPython (first: {first}), {mism} closed-form mismatches")
